@@ -791,12 +791,22 @@ func (x *Exec) stub(st *State, f *Frame, in *ssa.Call, fn *ssa.Function, name st
 		if pp.obj != 0 {
 			lbl = x.obj(st, pp.obj).label + " (sync.Pool)"
 		}
-		st.writes = append(st.writes, WriteRec{Obj: pp.obj, Label: lbl, Tag: "Global", Off: 0, At: at, Fn: fnm + " (shared pool)"})
+		st.writes = append(st.writes, WriteRec{Obj: pp.obj, Label: lbl, Tag: "Global", Off: 0, At: at, Fn: fnm + " (shared pool)", Val: -1, Old: -1})
+		if st.pools == nil {
+			st.pools = map[int][]Val{}
+		}
 		if name == "(*sync.Pool).Put" {
+			st.pools[pp.obj] = append(st.pools[pp.obj], args[1])
 			x.ret(f, in, nil)
 			return true
 		}
-		// Get: New() if set, else nil
+		// Get: what an earlier call of this run Put back (the recycled object keeps its state), else New() if set, else nil
+		if q := st.pools[pp.obj]; len(q) > 0 {
+			v := q[len(q)-1]
+			st.pools[pp.obj] = q[:len(q)-1]
+			x.ret(f, in, v)
+			return true
+		}
 		po := x.obj(st, pp.obj)
 		var newf Val
 		for _, s := range po.slots[pp.off:] {
